@@ -1,4 +1,5 @@
 """unit value_cmp: ord, lt/gt/le/ge, neq, CelValueDyn::eq, is_truthy, or, and, Not  (C04, C05 values, C01)"""
+HAS_LOOP_CONTRACTS = True
 from vgen.gen import Unit, A
 from . import common as C
 
@@ -91,7 +92,9 @@ impl Duration {
     #[verifier::external_body] pub fn subsec_nanos(&self) -> i32 { unimplemented!() }
 }
 #[verifier::external_body] pub fn dyn_downcast(d: &DynArc) -> Option<&CelValue> { unimplemented!() }
-#[verifier::external_body] pub fn list_eq(l: Vec<CelValue>, r: Vec<CelValue>) -> (o: CelValue) ensures o is Bool || o is Err { unimplemented!() }
+/// std::iter::zip of two vectors, materialized: the pairs of equal indices, in order, up to the shorter one (assumed std behaviour)
+#[verifier::external_body] pub fn zip(l: Vec<CelValue>, r: Vec<CelValue>) -> (o: Vec<(CelValue, CelValue)>)
+    ensures o@.len() == (if l@.len() <= r@.len() { l@.len() } else { r@.len() }), forall|i: int| 0 <= i < o@.len() ==> o@[i] == (l@[i], r@[i]) { unimplemented!() }
 #[verifier::external_body] pub fn map_eq(l: HashMap<String, CelValue>, r: HashMap<String, CelValue>) -> (o: CelValue) ensures o is Bool { unimplemented!() }
 pub assume_specification[ String::len ](s: &String) -> (r: usize) ensures r >= s@.len(), (r == 0) == (s@.len() == 0);   // UTF-8 byte length
 '''
@@ -131,7 +134,7 @@ def build():
     U = Unit('value_cmp')
     U.lemmas = [('law_int_trichotomy', ('C04',)), ('law_int_transitive', ('C04',)), ('law_int_antisymmetric', ('C04',))]
     U.global_rewrites.append(C.DYN_REWRITE)
-    U.raw(C.HEADER, 'header')
+    U.raw(C.HEADER.replace('use std::iter::zip;', '// std::iter::zip: the stand-in fn zip below'), 'header')
     U.raw(C.STANDINS, 'S1 stand-ins')
     C.value_types(U)
     U.raw(C.DERIVED, 'assumed derived impls')
@@ -196,6 +199,33 @@ def build():
 /// `==` on the scalar kinds, from the statement: same number for int/uint (bool as 0/1), payload equality for
 /// string/bytes/bool/timestamp/duration/type, null only equals null, values of unrelated scalar kinds are not equal.
 /// `negate` gives the `!=` reading.  Lists, maps and dyn objects are only required to give a bool or an error.
+/// Some(v): by the scalar rules `a == b` is exactly Bool(v); None: not decided at this level (doubles: IEEE, nested containers, dyn objects, failures)
+pub open spec fn elem_exact(a: CelValue, b: CelValue) -> Option<bool> {
+    if a is Err || b is Err { None }
+    else if integral_pair(a, b) { Some(int_val(a) == int_val(b)) }
+    else if double_pair(a, b) { None }
+    else { match (a, b) {
+        (CelValue::String(x), CelValue::String(y)) => Some(x@ == y@),
+        (CelValue::Bytes(x), CelValue::Bytes(y)) => Some(x@ == y@),
+        (CelValue::TimeStamp(x), CelValue::TimeStamp(y)) => Some(x == y),
+        (CelValue::Duration(x), CelValue::Duration(y)) => Some(x == y),
+        (CelValue::Type(x), CelValue::Type(y)) => Some(x@ == y@),
+        (CelValue::Null, CelValue::Null) => Some(true),
+        (CelValue::List(_), CelValue::List(_)) => None,
+        (CelValue::Map(_), CelValue::Map(_)) => None,
+        (CelValue::Dyn(_), _) => None,
+        (_, CelValue::Dyn(_)) => None,
+        _ => Some(false),
+    } }
+}
+/// list equality: lists of different lengths are never equal; lists whose element pairs are all decided by the scalar rules are equal
+/// exactly when every pair is (element-wise, same positions).  Lists holding doubles, containers, dyn objects or failures: bool or error.
+pub open spec fn list_eq_ok(x: Seq<CelValue>, y: Seq<CelValue>, r: CelValue, negate: bool) -> bool {
+    (r is Bool || r is Err)
+    && (x.len() != y.len() ==> r == CelValue::Bool(negate))
+    && ((x.len() == y.len() && forall|i: int| 0 <= i < x.len() ==> (#[trigger] elem_exact(x[i], y[i])) is Some)
+        ==> r == CelValue::Bool((forall|i: int| 0 <= i < x.len() ==> (#[trigger] elem_exact(x[i], y[i])) == Some(true)) != negate))
+}
 pub open spec fn scalar_eq_ok(a: CelValue, b: CelValue, r: CelValue, negate: bool) -> bool {
     if integral_pair(a, b) { r == CelValue::Bool((int_val(a) == int_val(b)) != negate) }
     else if double_pair(a, b) { r is Bool }
@@ -206,7 +236,7 @@ pub open spec fn scalar_eq_ok(a: CelValue, b: CelValue, r: CelValue, negate: boo
         (CelValue::Duration(x), CelValue::Duration(y)) => r == CelValue::Bool((x == y) != negate),
         (CelValue::Type(x), CelValue::Type(y)) => r == CelValue::Bool((x@ == y@) != negate),
         (CelValue::Null, CelValue::Null) => r == CelValue::Bool(!negate),
-        (CelValue::List(_), CelValue::List(_)) => r is Bool || r is Err,
+        (CelValue::List(x), CelValue::List(y)) => list_eq_ok(x@, y@, r, negate),
         (CelValue::Map(_), CelValue::Map(_)) => r is Bool || r is Err,
         (CelValue::Dyn(_), _) => true,
         (_, CelValue::Dyn(_)) => true,
@@ -236,8 +266,14 @@ pub open spec fn scalar_eq_ok(a: CelValue, b: CelValue, r: CelValue, negate: boo
                 '(CelValue::TimeStamp(l), CelValue::TimeStamp(r))': [('l == r', 'ts_eq(&l, &r)', R2C, 'opt'), ('r == l', 'ts_eq(&r, &l)', R2C, 'opt')],
                 '(CelValue::Duration(l), CelValue::Duration(r))': [('l == r', 'dur_eq(&l, &r)', R2C, 'opt'), ('r == l', 'dur_eq(&r, &l)', R2C, 'opt')],
             },
-            arm_replace={'(CelValue::List(l), CelValue::List(r))': ('{ list_eq(l, r) }', 'std::iter::zip has no Verus support; element-wise list equality is NOT verified'),
-                         '(CelValue::Map(l), CelValue::Map(r))': ('{ map_eq(l, r) }', 'HashMap<String,_>::into_iter / remove have no Verus support; map equality is NOT verified')},
+            arm_begin={'CelValue::Err(err)': 'proof { let k = it.index@ as int; assert((v1, v2) == (lx[k], ry[k])); assert(elem_exact(lx[k], ry[k]) is None); }'},
+            before={'for (v1, v2) in zip(l, r)': 'let ghost lx = l@; let ghost ry = r@;',
+                    ('return CelValue::false_();', 0): 'proof { let k = it.index@ as int; assert((v1, v2) == (lx[k], ry[k])); assert(elem_exact(lx[k], ry[k]) is Some ==> elem_exact(lx[k], ry[k]) == Some(false)); }'},
+            loops={0: dict(header='for (v1, v2) in zip(l, r)', ghost='it', invariant=[
+                ('the_operands_are_these_lists', '!integral_pair(lhs_val, rhs_val) && (!(rhs_val is Dyn) ==> lhs_val is List && rhs_val is List && lhs_val->List_0@ == lx && rhs_val->List_0@ == ry)'),
+                ('same_positions', 'lx.len() == ry.len() && it.seq().len() == lx.len() && forall|j: int| 0 <= j < lx.len() ==> it.seq()[j] == (lx[j], ry[j])'),
+                ('equal_so_far', 'forall|j: int| 0 <= j < it.index@ ==> ((#[trigger] elem_exact(lx[j], ry[j])) is Some ==> elem_exact(lx[j], ry[j]) == Some(true))', ('C04', 'C01'))])},
+            arm_replace={'(CelValue::Map(l), CelValue::Map(r))': ('{ map_eq(l, r) }', 'HashMap<String,_>::into_iter / remove have no Verus support; map equality is NOT verified')},
             props=('C04', 'C01')),
     }, others='stub', skip=('any_ref',))
     U.extract(C.CV, 'impl Not for CelValue', fns={'not': A(ret='r', ensures=[
